@@ -129,4 +129,219 @@ theorem Queue.enqueue_spec (zero : α) (q : Queue α) (v : α) (h : q.Inv) :
       · intro _; rw [hstop']; show q.frontIndex.toNat ≤ _; omega
       · rw [habs']; simp [hsz]
 
+theorem Queue.front_facts (q : Queue α) (h : q.Inv) (b : Array α) (rest : List (Array α))
+    (hn : q.nodes = b :: rest) (hne : q.listSize ≠ 0) :
+    ∃ x, q.frontCell = .ok x ∧
+      q.abs = x :: (q.cells.take q.stop).drop (q.frontIndex.toNat + 1) ∧
+      q.frontIndex.toNat < q.stop ∧ q.stop ≤ q.cells.length := by
+  obtain ⟨hpos, hbl, hidx, hfl, hsz⟩ := h
+  have hi := hidx (by simp [hn])
+  have hb : b.size = q.nodeSize := hbl b (by simp [hn])
+  have hcells : q.cells = b.toList ++ rest.flatMap Array.toList := by simp [Queue.cells, hn]
+  have hstop : q.stop ≤ q.cells.length := by simp [Queue.stop]; omega
+  have hlen : q.abs.length = q.stop - q.frontIndex.toNat := by
+    simp [Queue.abs]; omega
+  have hlt : q.frontIndex.toNat < q.stop := by omega
+  have hfb : q.frontIndex.toNat < b.size := by omega
+  refine ⟨b[q.frontIndex.toNat], ?_, ?_, hlt, hstop⟩
+  · simp [Queue.frontCell, hn, hi.1, hfb]
+  · rw [Queue.abs, List.drop_eq_getElem_cons (by simp; omega)]
+    congr 1
+    simp [hcells, List.getElem_append_left, hfb]
+
+theorem Queue.abs_nil_of_nodes (q : Queue α) (hn : q.nodes = []) : q.abs = [] := by
+  simp [Queue.abs, Queue.cells, hn]
+
+theorem Queue.dequeue_spec (q : Queue α) (h : q.Inv) :
+    ∃ q', q.dequeue = .ok (q', (Spec.Q.dequeue q.abs).2) ∧ q'.Inv ∧ q'.abs = (Spec.Q.dequeue q.abs).1 := by
+  by_cases h0 : q.listSize = 0
+  · have habs : q.abs = [] := by
+      have := h.size; rw [h0] at this
+      exact List.eq_nil_of_length_eq_zero (by omega)
+    exact ⟨q, by simp [Queue.dequeue, h0, habs, Spec.Q.dequeue], h, by simp [habs, Spec.Q.dequeue]⟩
+  · cases hn : q.nodes with
+    | nil =>
+      have := h.size; rw [Queue.abs_nil_of_nodes q hn] at this; simp at this; omega
+    | cons b rest =>
+      obtain ⟨x, hcell, habs, hlt, hstop⟩ := Queue.front_facts q h b rest hn h0
+      obtain ⟨hpos, hbl, hidx, hfl, hsz⟩ := h
+      have hi := hidx (by simp [hn])
+      have hb : b.size = q.nodeSize := hbl b (by simp [hn])
+      have hcells : q.cells = b.toList ++ rest.flatMap Array.toList := by simp [Queue.cells, hn]
+      simp only [Queue.dequeue, h0, if_false, hcell, habs, Spec.Q.dequeue]
+      by_cases hfull : q.frontIndex + 1 = ↑q.nodeSize
+      · simp only [hfull, if_true, hn, List.tail_cons]
+        have hc' : Queue.cells (⟨q.nodeSize, q.listSize - 1, 0, q.rearIndex, rest⟩ : Queue α)
+            = q.cells.drop q.nodeSize := by
+          rw [hcells]; simp [Queue.cells, hb]
+        have hstop' : Queue.stop (⟨q.nodeSize, q.listSize - 1, 0, q.rearIndex, rest⟩ : Queue α)
+            = q.stop - q.nodeSize := by
+          rw [Queue.stop, hc']; simp [Queue.stop, hcells, hb]; omega
+        have habs' : Queue.abs (⟨q.nodeSize, q.listSize - 1, 0, q.rearIndex, rest⟩ : Queue α)
+            = (q.cells.take q.stop).drop (q.frontIndex.toNat + 1) := by
+          have : q.frontIndex.toNat + 1 = q.nodeSize := by omega
+          rw [Queue.abs, hstop', hc', this]
+          show List.take (q.stop - q.nodeSize) (List.drop q.nodeSize q.cells) = _
+          rw [List.drop_take]
+        refine ⟨_, rfl, ⟨hpos, ?_, ?_, ?_, ?_⟩, habs'⟩
+        · intro b' hb'; exact hbl b' (by rw [hn]; exact List.mem_cons_of_mem _ hb')
+        · intro _; simp; omega
+        · intro _; simp
+        · rw [habs']; rw [hsz, habs]; simp
+      · simp only [hfull, if_false]
+        have habs' : Queue.abs (⟨q.nodeSize, q.listSize - 1, q.frontIndex + 1, q.rearIndex, q.nodes⟩ : Queue α)
+            = (q.cells.take q.stop).drop (q.frontIndex.toNat + 1) := by
+          have : (q.frontIndex + 1).toNat = q.frontIndex.toNat + 1 := by omega
+          simp [Queue.abs, Queue.stop, Queue.cells, this]
+        refine ⟨_, rfl, ⟨hpos, hbl, ?_, ?_, ?_⟩, habs'⟩
+        · intro _; simp; omega
+        · intro _; show (q.frontIndex + 1).toNat ≤ q.stop; omega
+        · rw [habs']; rw [hsz, habs]; simp
+
+theorem Queue.peek_spec (q : Queue α) (h : q.Inv) : q.peek = .ok (Spec.Q.peek q.abs) := by
+  by_cases h0 : q.listSize = 0
+  · have habs : q.abs = [] := by
+      have := h.size; rw [h0] at this
+      exact List.eq_nil_of_length_eq_zero (by omega)
+    simp [Queue.peek, h0, habs, Spec.Q.peek]
+  · cases hn : q.nodes with
+    | nil =>
+      have := h.size; rw [Queue.abs_nil_of_nodes q hn] at this; simp at this; omega
+    | cons b rest =>
+      obtain ⟨x, hcell, habs, _, _⟩ := Queue.front_facts q h b rest hn h0
+      simp [Queue.peek, h0, hcell, habs, Spec.Q.peek, Outcome.map]
+
+theorem Queue.containsLoop_spec (eq : α → α → Bool) (B : Nat) (r : Int) (hr0 : 0 ≤ r) (hrB : r < B) (v : α) :
+    ∀ (fuel : Nat) (b : Array α) (rest : List (Array α)) (i : Int),
+      b.size = B → (∀ b' ∈ rest, b'.size = B) → 0 ≤ i → i < B →
+      (b.toList ++ rest.flatMap Array.toList).length + 2 ≤ fuel + i.toNat →
+      Queue.containsLoop eq B r v fuel (b :: rest) i =
+        .ok ((((b.toList ++ rest.flatMap Array.toList).take
+          ((b.toList ++ rest.flatMap Array.toList).length + (r + 1).toNat - B)).drop i.toNat).any
+            (fun x => eq x v)) := by
+  intro fuel
+  induction fuel with
+  | zero => intro b rest i hb _ _ _ hf; simp at hf; omega
+  | succ fuel ih =>
+    intro b rest i hb hrest h0 hlt hf
+    have hsz : i.toNat < b.size := by omega
+    rw [Queue.containsLoop]
+    by_cases hexit : rest.isEmpty = true ∧ ¬ (i ≤ r)
+    · have hr : rest = [] := by simpa using hexit.1
+      simp only [hexit]
+      subst hr
+      have : List.drop i.toNat (List.take (b.size + (r + 1).toNat - B) b.toList) = [] := by
+        apply List.drop_eq_nil_of_le; simp; omega
+      simp [this]
+    · simp only [hexit, if_false, h0, hsz, and_self, if_true]
+      obtain ⟨x, hget, hxl⟩ : ∃ x, b[i.toNat]? = some x ∧
+          (b.toList ++ rest.flatMap Array.toList)[i.toNat]'(by simp; omega) = x :=
+        ⟨b[i.toNat], by simp [hsz], by simp [List.getElem_append_left, hsz]⟩
+      simp only [hget]
+      cases hr : rest with
+      | nil =>
+        subst hr
+        have hir : i ≤ r := by simpa using hexit
+        simp only [List.flatMap_nil, List.append_nil, Array.length_toList] at hxl ⊢
+        rw [List.drop_eq_getElem_cons (by simp; omega)]
+        simp only [List.getElem_take, hxl, List.any_cons]
+        by_cases he : eq x v = true
+        · simp [he]
+        · simp only [he]
+          by_cases hnext : i + 1 = ↑B
+          · simp only [hnext, if_true]
+            have : List.drop (i.toNat + 1) (List.take (b.size + (r + 1).toNat - B) b.toList) = [] := by
+              apply List.drop_eq_nil_of_le; simp; omega
+            cases fuel with
+            | zero => simp at hf; omega
+            | succ f => simp [Queue.containsLoop, this]
+          · simp only [hnext, if_false]
+            rw [ih b [] (i + 1) hb (by simp) (by omega) (by omega) (by simp at hf ⊢; omega)]
+            have h4 : (i + 1).toNat = i.toNat + 1 := by omega
+            simp [h4]
+      | cons b2 rest2 =>
+        subst hr
+        have hb2 : b2.size = B := hrest b2 (by simp)
+        have hrest2 : ∀ b' ∈ rest2, b'.size = B := fun b' hb' => hrest b' (by simp [hb'])
+        rw [List.drop_eq_getElem_cons (by simp; omega)]
+        simp only [List.getElem_take, hxl, List.any_cons]
+        by_cases he : eq x v = true
+        · simp [he]
+        · simp only [he]
+          by_cases hnext : i + 1 = ↑B
+          · simp only [hnext, if_true]
+            rw [ih b2 rest2 0 hb2 hrest2 (by omega) (by omega) (by simp at hf ⊢; omega)]
+            have h4 : i.toNat + 1 = B := by omega
+            have hd : List.drop B (b.toList ++ (b2 :: rest2).flatMap Array.toList)
+                = b2.toList ++ rest2.flatMap Array.toList := by
+              rw [List.drop_left' (by simp [hb])]; simp
+            simp only [Int.toNat_zero, List.drop_zero]
+            rw [h4, List.drop_take, hd]
+
+            simp [hb, hb2]; congr 2; omega
+          · simp only [hnext, if_false]
+            rw [ih b (b2 :: rest2) (i + 1) hb hrest (by omega) (by omega) (by simp at hf ⊢; omega)]
+            have h4 : (i + 1).toNat = i.toNat + 1 := by omega
+            simp [h4]
+
+theorem flat_length (B : Nat) (nodes : List (Array α)) (h : ∀ b ∈ nodes, b.size = B) :
+    (nodes.flatMap Array.toList).length = nodes.length * B := by
+  induction nodes with
+  | nil => simp
+  | cons b rest ih =>
+    rw [List.flatMap_cons, List.length_append, ih (fun b' hb' => h b' (by simp [hb'])), List.length_cons,
+      Nat.succ_mul]
+    simp [h b (by simp)]
+    omega
+
+theorem Queue.contains_spec (eq : α → α → Bool) (q : Queue α) (v : α) (h : q.Inv) :
+    q.contains eq v = .ok (Spec.Q.contains eq q.abs v) := by
+  cases hn : q.nodes with
+  | nil =>
+    simp [Queue.contains, hn, Queue.abs_nil_of_nodes q hn, Spec.Q.contains, Queue.containsLoop]
+  | cons b rest =>
+    obtain ⟨hpos, hbl, hidx, hfl, hsz⟩ := h
+    have hi := hidx (by simp [hn])
+    have hb : b.size = q.nodeSize := hbl b (by simp [hn])
+    have hrest : ∀ b' ∈ rest, b'.size = q.nodeSize := fun b' hb' => hbl b' (by simp [hn, hb'])
+    have hlen := flat_length q.nodeSize rest hrest
+    simp only [Queue.contains, hn]
+    rw [Queue.containsLoop_spec eq q.nodeSize q.rearIndex hi.2.2.1 hi.2.2.2 v _ b rest q.frontIndex hb hrest
+      hi.1 hi.2.1]
+    · simp [Queue.abs, Queue.stop, Queue.cells, hn, Spec.Q.contains]
+    · rw [List.length_append, hlen]
+      simp only [List.length_cons, Nat.add_mul, Nat.mul_add, Array.length_toList, hb]
+      omega
+
+/-- the simulation relation: the invariant holds and the live cells are the Spec's list -/
+def Queue.Rel (q : Queue α) (l : Spec.Q α) : Prop := q.Inv ∧ q.abs = l
+
+theorem Queue.step_refines (zero : α) (eq : α → α → Bool) (q : Queue α) (l : Spec.Q α) (op : Op α)
+    (h : Queue.Rel q l) :
+    ∃ q', Queue.step zero eq q op = .ok (q', (Spec.Q.step eq l op).2) ∧
+      Queue.Rel q' (Spec.Q.step eq l op).1 := by
+  obtain ⟨hinv, rfl⟩ := h
+  cases op with
+  | add v =>
+    obtain ⟨q', h1, h2, h3⟩ := Queue.enqueue_spec zero q v hinv
+    exact ⟨q', by simp [Queue.step, h1, Outcome.map, Spec.Q.step], h2, by simp [Spec.Q.step, Spec.Q.enqueue, h3]⟩
+  | remove =>
+    obtain ⟨q', h1, h2, h3⟩ := Queue.dequeue_spec q hinv
+    exact ⟨q', by simp [Queue.step, h1, Outcome.map, Spec.Q.step], h2, by simp [Spec.Q.step, h3]⟩
+  | peek =>
+    exact ⟨q, by simp [Queue.step, Queue.peek_spec q hinv, Outcome.map, Spec.Q.step], hinv, rfl⟩
+  | contains v =>
+    exact ⟨q, by simp [Queue.step, Queue.contains_spec eq q v hinv, Outcome.map, Spec.Q.step], hinv, rfl⟩
+  | size =>
+    exact ⟨q, by simp [Queue.step, Queue.size, hinv.size, Spec.Q.step, Spec.Q.size], hinv, rfl⟩
+  | isEmpty =>
+    refine ⟨q, ?_, hinv, rfl⟩
+    simp [Queue.step, Queue.isEmpty, hinv.size, Spec.Q.step, Spec.Q.isEmpty]
+    cases q.abs <;> simp
+    omega
+
+theorem Queue.run_refines (zero : α) (eq : α → α → Bool) (B : Nat) (hB : 1 ≤ B) (ops : List (Op α)) :
+    Queue.run zero eq (Queue.new B) ops = (Spec.Q.run eq [] ops).map Outcome.ok :=
+  runTrace_refines _ _ Queue.Rel (Queue.step_refines zero eq) ops _ _ ⟨Queue.new_inv B hB, Queue.new_abs B⟩
+
 end AlgoVerif.C18
